@@ -327,21 +327,27 @@ func (c *ctx) header(in string, receive bool) {
 		r.Fail("stream-level-error-returned", "header-panic", lines, p)
 		return
 	}
-	obs := "other"
-	var se stream.Error
-	if errors.As(err, &se) {
-		obs = "se:" + se.Err
-	}
-	r.Line(line, obs)
-	r.Case(line, obs != "other", "header/"+strings.SplitN(obs, ":", 2)[0])
+	// only a *received* stream error is the subject here: errors the library raises itself
+	// about a bad header (invalid-namespace, …) are stream.Error values too
+	firstIsSE := false
 	if len(toks) > 0 {
 		first := toks[0]
 		if pi, ok := first.(xml.ProcInst); ok && pi.Target == "xml" && len(toks) > 1 {
 			first = toks[1]
 		}
-		if st, ok := first.(xml.StartElement); ok && st.Name.Space == NSStream && st.Name.Local == "error" && strings.Contains(in, "</stream:error>") && obs == "other" {
-			r.Fail("stream-level-error-returned", "header-not-returned", lines, fmt.Sprintf("negotiation returned %v", err))
+		if st, ok := first.(xml.StartElement); ok && st.Name.Space == NSStream && st.Name.Local == "error" {
+			firstIsSE = true
 		}
+	}
+	obs := "other"
+	var se stream.Error
+	if firstIsSE && errors.As(err, &se) {
+		obs = "se:" + se.Err
+	}
+	r.Line(line, obs)
+	r.Case(line, obs != "other", "header/"+strings.SplitN(obs, ":", 2)[0])
+	if firstIsSE && strings.Contains(in, "</stream:error>") && obs == "other" {
+		r.Fail("stream-level-error-returned", "header-not-returned", lines, fmt.Sprintf("negotiation returned %v", err))
 	}
 }
 
